@@ -36,7 +36,7 @@ type c15Case struct {
 	Required bool     `json:"required"`
 }
 
-const c15Timeout = 100 * time.Millisecond // the client gives up after timeout + 1s
+const c15Timeout = 900 * time.Millisecond // the client gives up after timeout + 1s; generous, the machine may be busy
 
 func c15Servers(modes []string) ([]*promsrv.Server, error) {
 	var out []*promsrv.Server
